@@ -7,6 +7,7 @@ import (
 	"strings"
 	"sync"
 	"time"
+	"verif/sim/hook"
 )
 
 // Violation is an oracle failure.
@@ -21,25 +22,26 @@ type Run struct {
 	Seed uint64
 	Tape *Tape
 
-	mu       sync.Mutex
-	log      []string
-	logHash  uint64
-	nlog     int
-	Faults   map[string]int
-	Probes   map[string]int
-	viol     *Violation
-	KnownHit map[string]int
-	known    func(sig string) (string, bool)
-	cover    uint64
-	nontriv  bool
-	start    time.Time
-	SimTime  time.Duration
-	Params   map[string]any
-	Replay   bool
-	ended    bool
-	reseed   func(uint64)
-	lastEl   time.Duration
-	leakOver *string
+	mu          sync.Mutex
+	log         []string
+	logHash     uint64
+	freeRunning bool
+	nlog        int
+	Faults      map[string]int
+	Probes      map[string]int
+	viol        *Violation
+	KnownHit    map[string]int
+	known       func(sig string) (string, bool)
+	cover       uint64
+	nontriv     bool
+	start       time.Time
+	SimTime     time.Duration
+	Params      map[string]any
+	Replay      bool
+	ended       bool
+	reseed      func(uint64)
+	lastEl      time.Duration
+	leakOver    *string
 }
 
 // SetLeakSig overrides, for this run, the signature reported when goroutines of
@@ -84,6 +86,9 @@ const maxLogLines = 400
 // Logf appends one line to the event log. It never draws from the tape and
 // reads only the bubble clock.
 func (r *Run) Logf(format string, a ...any) {
+	if hook.AbortedTask() {
+		return
+	}
 	line := fmt.Sprintf(format, a...)
 	r.mu.Lock()
 	defer r.mu.Unlock()
@@ -95,10 +100,12 @@ func (r *Run) Logf(format string, a ...any) {
 		r.lastEl = el
 	}
 	line = fmt.Sprintf("t=%-12v %s", el, line)
-	for i := 0; i < len(line); i++ {
-		r.logHash = (r.logHash ^ uint64(line[i])) * 1099511628211
+	if !r.freeRunning {
+		for i := 0; i < len(line); i++ {
+			r.logHash = (r.logHash ^ uint64(line[i])) * 1099511628211
+		}
+		r.logHash = (r.logHash ^ 0xa) * 1099511628211
 	}
-	r.logHash = (r.logHash ^ 0xa) * 1099511628211
 	r.nlog++
 	if len(r.log) < maxLogLines {
 		r.log = append(r.log, line)
@@ -198,6 +205,24 @@ func (r *Run) LogHash() uint64 {
 	r.mu.Lock()
 	defer r.mu.Unlock()
 	return r.logHash
+}
+
+// FreeRunning declares that from here on the run contains goroutines of third-party code whose
+// interleaving the simulator does not decide (they run freely between quiescent points, and the Go
+// scheduler's time-slice preemption is driven by the real clock). Event-log lines are still
+// recorded, but the log hash — the "exactly the same execution" criterion of replay and of the
+// determinism self-test — covers only the lines written before this call (the run's parameters).
+func (r *Run) FreeRunning() {
+	r.mu.Lock()
+	r.freeRunning = true
+	r.mu.Unlock()
+}
+
+// IsFreeRunning reports whether FreeRunning was called.
+func (r *Run) IsFreeRunning() bool {
+	r.mu.Lock()
+	defer r.mu.Unlock()
+	return r.freeRunning
 }
 
 // StartClock records the bubble start so log lines carry simulated time.
